@@ -24,7 +24,7 @@ IMMUTABLE_KINDS = {"CHK", "LIT", "DIR2-CHK", "DIR2-LIT"}
 
 
 def plan(tier):
-    n = 150 if tier == "quick" else 8000
+    n = 150 if tier == "quick" else 3000
     return [{"kind": "hyp", "n": n} for _ in range(16)]
 
 
